@@ -17,6 +17,7 @@ Source-level sugar (assembled to their documented expansion):
   ['macro', name, argnames, body_template, [argvals]]   definition + one call
   ['macrocall', name, [argvals]]       a further call of an earlier macro
   ['comptime_push', body]              push ~ { body }
+  ['comptime_exec', values]           push ~! { push v1 push v2 .. } -> push <top>
   ['comment', words]                   contributes no bytes
 """
 from __future__ import annotations
@@ -113,6 +114,10 @@ def asm_node(n) -> bytes:
         return assemble(expand_macro(['macro', d[1], d[2], d[3], n[2]]))
     if t == 'comptime_push':
         return isa.push(assemble(n[1]))
+    if t == 'comptime_exec':
+        # language_spec: "executes the ops, then pops the top item of the
+        # Stack, and replaces the code section with that item"
+        return isa.push(n[1][-1])
     if t == 'comment':
         return b''
     raise AsmError(f'unknown node {t}')
